@@ -10,7 +10,10 @@
 // the observation lines are schedule independent: the model is the sequential one with completions inserted as soon
 // as the body suspends (GenDefs.genc_run), the point trace itself is not compared.
 // ops:  0 k1 a1 ...   create (script as in vm_gen.cpp)
-//       1 style arg   access; styles 0..6 as in vm_gen.cpp, 7 = range-for over everything that is left (genc0)
+//       1 style arg   access; styles 0..6 as in vm_gen.cpp, 7 = range-for over everything that is left (genc0),
+//                     8 = a re-arming awaiter: subscribes again from inside its own notification until the end
+//                     (one line per answer).  The resume functions of the plain awaiters (6, 8) contain a
+//                     scheduling point: the consumer thread may re-arm while the notifying thread is still inside
 //       3             destroy
 //       9 c1 c2 ...   schedule (choice k = the (k mod #enabled)-th enabled thread)
 // observation: one line per access answer (style 7: one per loop iteration + the terminating answer):
@@ -50,6 +53,8 @@ static void run_case(const vh::Case &cs) {
         else ops.push_back(op);
     }
     std::atomic<bool> consumer_done{false};
+    c.line_out = [&](Result r) { emit(c, 0, r); };
+    g_notify_hook = [] { ctl::point("step"); };
 
     auto consumer = [&] {
         for (auto &op : ops) {
@@ -63,7 +68,7 @@ static void run_case(const vh::Case &cs) {
                     emit(c, 0, Result{});
                     break;
                 case 1: {
-                    if (op.size() != 3 || !c.gen || op[1] < 0 || op[1] > 7 || (A && (op[1] == 1 || op[1] == 7))) {
+                    if (op.size() != 3 || !c.gen || op[1] < 0 || op[1] > 8 || (A && (op[1] == 1 || op[1] == 7))) {
                         c.sink->nev = 0;
                         vh::print_obs({1, 0, 0, 0, 0, 0, 0});
                         break;
@@ -92,6 +97,11 @@ static void run_case(const vh::Case &cs) {
                             }
                             emit(c, 0, r);
                         }
+                        break;
+                    }
+                    if (style == 8) {
+                        c.chain_start(c.argv);
+                        if (!c.chain_done) ctl::block_until("xwait", [&] { return c.chain_done; });
                         break;
                     }
                     if (style == 6) {
